@@ -425,6 +425,7 @@ func c01Run(t *testing.T, cfg c01Config) c01Outcome {
 		d.Close()
 		ln.Close()
 		w.ServerTr.Close()
+		w.CloseEndpoints()
 		<-cliDone
 		<-srvDone
 		dgWG.Wait()
